@@ -167,6 +167,49 @@ func genLeafConc(r *rand.Rand, tier string) []string {
 		}
 		out = append(out, ln)
 	}
+	// A leaf being started against Left, access by access (`pts=fine`): one unstarted leaf (a live or a finished unlimited
+	// part, a once), one or two callers whose first Next starts it, one or two that ask Left; the stores inside the once and
+	// the loads of Left are separate points. Judged like a free run: every Left must be the flat spec's answer for some
+	// number of draws inside the call (a live unlimited part: -1, never 0).
+	nf := 40
+	if tier == "thorough" {
+		nf = 600
+	}
+	for i := 0; i < nf; i++ {
+		var t *node
+		switch r.Intn(4) {
+		case 0:
+			t = mkFin(fmt.Sprintf("once:%d", 1+r.Intn(2)))
+		case 1:
+			t = &node{kind: "U", dur: 1e6}
+		default:
+			t = &node{kind: "U", dur: twentyHours}
+		}
+		var progs []string
+		total := 0
+		for j, k := 0, 1+r.Intn(2); j < k; j++ {
+			p := "N"
+			if r.Intn(2) == 0 {
+				p += "L"
+			}
+			progs = append(progs, p)
+			total += len(p)
+		}
+		for j, k := 0, 1+r.Intn(2); j < k; j++ {
+			p := strings.Repeat("L", 1+r.Intn(2))
+			progs = append(progs, p)
+			total += len(p)
+		}
+		r.Shuffle(len(progs), func(a, b int) { progs[a], progs[b] = progs[b], progs[a] })
+		var sched []string
+		for len(sched) < total*5 {
+			c := strconv.Itoa(r.Intn(len(progs)))
+			for x, run := 0, 1+r.Intn(3); x < run; x++ {
+				sched = append(sched, c)
+			}
+		}
+		out = append(out, line("lnconc", 0, t, progs, sched)+" pts=fine")
+	}
 	if tier == "thorough" {
 		// every order of two callers (words of length 10) on small leaves
 		for _, c := range []string{"once:1", "once:2"} {
